@@ -87,6 +87,8 @@ func checkC15(p *load.Program, r *kit.Report) {
 	importRules(p, r, "C07", "IntersectHash runs inside ProcessHeader with the repository mutex held: both ancestor walks must advance their own cursor, or a fork of a fork that overtakes makes a peer's headers message spin for ever with every other connection blocked on the repository", 1, nil, "INTERSECT-SHAPE")
 	r.Rule("NO-SELF-RECURSION", "no function of the two packages calls itself on every path (an Error()/String() method that formats its own receiver): the stack overflow aborts the process and no recover contains it", 1)
 	checkNoUnconditionalSelfCall(p, r, "NO-SELF-RECURSION")
+	r.Rule("EXT-DISPATCH", "handleExtended looks up the handler table only with a command that is block or tx (constant, or found equal to one of them on every path): no nesting of extended messages through the extmsg entry", 1)
+	checkExtendedDispatch(p, r, "EXT-DISPATCH")
 	importRules(p, r, "C13", "Run returns only after Stop closed the connection: Stop must never wait for a writer that is blocked on the peer", 1, nil, "NO-IO-UNDER-LOCK")
 	importRules(p, r, "C06", "a map written without its write lock while other goroutines use it aborts the process (fatal error: concurrent map writes), which no recover contains", 1,
 		func(o *kit.Obligation) bool {
